@@ -189,6 +189,11 @@ func genValue(t types.Type, r *rand.Rand, depth int) *CV {
 		}
 	case isErrorType(t):
 		panic(genError{"error-typed input"})
+	case ts == "github.com/cosmos/cosmos-sdk/types.Context":
+		sec := int64(1700000000) + r.Int63n(2000) - 1000
+		ns := big.NewInt(sec)
+		ns.Mul(ns, big.NewInt(1000000000))
+		return &CV{K: "ctx", I: ns}
 	case ts == "github.com/cosmos/cosmos-sdk/types.AccAddress" || ts == "github.com/cosmos/cosmos-sdk/types.ValAddress":
 		c := &CV{K: "slice"}
 		for i := 0; i < 20; i++ {
@@ -263,6 +268,12 @@ func genValue(t types.Type, r *rand.Rand, depth int) *CV {
 // goLit prints a CV as a Go expression of type t.
 func (lc *litCtx) goLit(c *CV, t types.Type) string {
 	ts := typeString(t)
+	if c.K == "zero" {
+		return lc.typeStr(t) + "{}"
+	}
+	if c.K == "ctx" {
+		return fmt.Sprintf("(%s{}).WithBlockTime(gvTime(%q))", lc.typeStr(t), c.I.String())
+	}
 	switch {
 	case ts == "cosmossdk.io/math.Int":
 		return fmt.Sprintf("gvBigInt(%q)", c.I.String())
